@@ -25,7 +25,7 @@ type C15Case struct {
 	DstPrep  string `json:"dstprep,omitempty"` // history of the destination before the transfer: "" (constructor+Push) | reset | remove | insertfront | popfifo
 }
 
-var c15Forms = []string{"native", "alias", "ptrstack", "ptralias", "readonly", "zero", "zeroalias", "nil", "typednil", "int", "string", "cond"}
+var c15Forms = []string{"native", "alias", "ptrstack", "ptralias", "readonly", "readonly-alias", "readonly-ptrstack", "readonly-ptralias", "zero", "zeroalias", "nil", "typednil", "int", "string", "cond"}
 
 func runC15(c C15Case) (st Stats, err error) {
 	var src, dst stackage.Stack
@@ -110,6 +110,17 @@ func runC15(c C15Case) (st Stats, err error) {
 		case "readonly":
 			dst.SetReadOnly(true)
 			dstArg = dst
+		case "readonly-alias":
+			dst.SetReadOnly(true)
+			dstArg = MyStack(dst)
+		case "readonly-ptrstack":
+			dst.SetReadOnly(true)
+			d := dst
+			dstArg = &d
+		case "readonly-ptralias":
+			dst.SetReadOnly(true)
+			d := MyStack(dst)
+			dstArg = &d
 		case "zero":
 			dstArg = stackage.Stack{}
 		case "zeroalias":
@@ -283,7 +294,7 @@ func genC15(t *rapid.T, tier Tier) C15Case {
 		DstLen:  rapid.IntRange(0, maxLen).Draw(t, "dstlen"),
 		SrcFIFO: rapid.Bool().Draw(t, "fifo"),
 		SrcNils: rapid.Bool().Draw(t, "nils"),
-		Form:    rapid.SampledFrom([]string{"native", "native", "native", "alias", "ptrstack", "ptralias", "readonly", "zero", "zeroalias", "nil", "typednil", "int", "string", "cond"}).Draw(t, "form"),
+		Form:    rapid.SampledFrom([]string{"native", "native", "native", "alias", "ptrstack", "ptralias", "readonly", "readonly-alias", "readonly-ptrstack", "readonly-ptralias", "zero", "zeroalias", "nil", "typednil", "int", "string", "cond"}).Draw(t, "form"),
 		Opt:     rapid.SampledFrom([]string{"plain", "plain", "nonest", "policy"}).Draw(t, "opt"),
 	}
 	c.SrcStack = -1
@@ -307,7 +318,7 @@ func init() {
 	Register(Def[C15Case]{
 		ID: "C15",
 		Rule: "exhaustive grid source length 0..6 x destination length 0..6 x destination capacity {none, len+0..len+7} x source LIFO/FIFO x source with/without nil elements x " +
-			"12 destination forms (native, alias, pointer to Stack, pointer to alias, read-only, zero Stack, zero alias, nil, typed nil pointer, int, string, Condition) plus no-nesting / rejecting-push-policy destinations and destinations with a history (Reset-and-refill, Remove, front Insert, remove-and-push: re-allocated backing arrays); " +
+			"15 destination forms (native, alias, pointer to Stack, pointer to alias, read-only in each of these four forms, zero Stack, zero alias, nil, typed nil pointer, int, string, Condition) plus no-nesting / rejecting-push-policy destinations and destinations with a history (Reset-and-refill, Remove, front Insert, remove-and-push: re-allocated backing arrays); " +
 			"plus rapid-generated larger cells (lengths up to 12, thorough 40). Oracle: source snapshot (public getters + VerifDump) identical; true => destination == old content ++ source; " +
 			"too little room / read-only / non-Stack destination => false and destination snapshot identical; destination-side filter dropping an element => false. " +
 			"non-trivial = 0<free<srcLen, or free==srcLen>0, or a destination-side filter drops an element; distinct = distinct cell",
